@@ -52,6 +52,8 @@ var ModSeeds = []string{
 // retract block that carries a comment of its own, which is the rationale of the lines that have none.
 // The set/map model of C08 does not define how a block comment is inherited, so C08 leaves them out.
 var ModSeedsTypedOnly = []string{
+	// comment, blank line, directive inside blocks
+	"module example.com/m\n\n// block\nretract (\n\t// p1\n\n\t// p2\n\tv1.0.0\n\n\tv1.1.0 // s\n)\n\nrequire (\n\t// c1\n\n\ta.com/x v1.0.0\n)\n",
 	// a module block whose comment and whose line's comment both speak about deprecation
 	"// Deprecated: use other.example/m\nmodule (\n\t// own\n\texample.com/m\n)\n",
 	"module (\n\texample.com/m // own\n) // Deprecated: gone\n\nrequire a.com/x v1.0.0\n",
